@@ -51,6 +51,13 @@ class Run:
     def inconclusive(self, rule, key, reason):
         self.instances.append({"rule": rule, "key": key, "verdict": "INCONCLUSIVE", "detail": reason, "nontrivial": False})
 
+    def condition(self, name, reason, rules):
+        """A modelling limitation that only some rules depend on: their VIOLATIONs are reported as INCONCLUSIVE while it
+        holds (the other rules keep their verdicts)."""
+        if not hasattr(self, "conditions"):
+            self.conditions = {}
+        self.conditions[name] = (reason, tuple(rules))
+
     def check(self, rule, key, ok, detail_ok="", detail_bad="", witness=None):
         if ok:
             self.holds(rule, key, detail_ok)
@@ -86,6 +93,12 @@ class Run:
         out = sys.stdout
         # A failed modelling precondition (rule "<id>-pre") means the event skeleton no longer represents the code:
         # nothing derived from it is a verdict, in either direction.  The run is INCONCLUSIVE, not a VIOLATION.
+        for cname, (creason, crules) in getattr(self, "conditions", {}).items():
+            for i in self.instances:
+                if i["verdict"] == "VIOLATION" and i["rule"] in crules:
+                    i["verdict"] = "INCONCLUSIVE"
+                    i["nontrivial"] = False
+                    i["detail"] = "not decided (%s: %s): %s" % (cname, creason[:120], i["detail"])
         broken = [i for i in self.instances if i["verdict"] == "INCONCLUSIVE" and i["rule"].endswith("-pre")]
         if broken:
             for i in self.instances:
@@ -232,6 +245,9 @@ class SubsetAlias:
         if self.keys is None and self._m(rule):
             return self.R.floor(self._m(rule), what, n, minimum)
         return n >= minimum
+
+    def condition(self, name, reason, rules):
+        return self.R.condition(name, reason, tuple(self.mapping.get(r_, r_) for r_ in rules))
 
     def trust(self, *a, **k):
         pass
